@@ -79,7 +79,17 @@ class C11(PropertyCheck):
     lean_modules = ["QipVerif.Props.C11"]
     drivers = ["drv_sched"]
     theorems = [
+        "QipVerif.C11.pulseStarts_eq",
+        "QipVerif.C11.real_oracle_perm",
+        "QipVerif.C11.starts_length",
+        "QipVerif.C11.start_nonneg",
+        "QipVerif.C11.min_start_zero",
+        "QipVerif.C11.dep_respected",
+        "QipVerif.C11.makespan_le_sum",
+        "QipVerif.C11.no_overlap_partial",
+        "QipVerif.C11.no_overlap_without_permutation",
         "QipVerif.C11.C11_counterexample_starts",
+        "QipVerif.C11.C11_counterexample_overlap",
         "QipVerif.C11.C11_counterexample_no_overlap",
     ]
     level_text = ""
